@@ -1245,7 +1245,13 @@ func returnsOf(fn *ssa.Function) []*ssa.Return {
 // defer-spill shape (`*t0 = v; rundefers; t = *t0; return t`): it returns the
 // set of values that may be returned at this Return.
 func resultValues(r *ssa.Return, i int) []ssa.Value {
-	v := r.Results[i]
+	return loadValues(r.Results[i])
+}
+
+// loadValues: for a load from a function-local cell, the values that may
+// reach it (last store on each path; stores made by closures included as
+// unknown alternatives); any other value is returned as is.
+func loadValues(v ssa.Value) []ssa.Value {
 	u, ok := v.(*ssa.UnOp)
 	if !ok || u.Op != token.MUL {
 		return []ssa.Value{v}
@@ -1365,6 +1371,12 @@ func defersRecover(fn *ssa.Function) bool {
 			return
 		}
 		callee := deferCallee(d)
+		if _, isBuiltin := d.Common().Value.(*ssa.Builtin); isBuiltin {
+			return // close(...), print...: never recovers
+		}
+		if d.Common().IsInvoke() {
+			return // interface method (Close, Stop): library or module method, judged not to recover for its caller
+		}
 		if callee == nil {
 			found = true // unknown deferred function: assume it may recover
 			return
@@ -1379,4 +1391,17 @@ func defersRecover(fn *ssa.Function) bool {
 		})
 	})
 	return found
+}
+
+// canonLoad replaces a load from a local cell by the single value that
+// reaches it, if there is exactly one.
+func canonLoad(v ssa.Value) ssa.Value {
+	for i := 0; i < 4; i++ {
+		vs := loadValues(v)
+		if len(vs) != 1 || vs[0] == v {
+			return v
+		}
+		v = vs[0]
+	}
+	return v
 }
